@@ -76,6 +76,12 @@ V31B = "CVSS:3.1/AV:L/AC:H/PR:H/UI:R/S:U/C:L/I:N/A:L"
 V31B_RE = "CVSS:3.1/A:L/I:N/C:L/S:U/UI:R/PR:H/AC:H/AV:L/E:X/MAV:X/CR:X"
 V4A = "CVSS:4.0/AV:N/AC:L/AT:N/PR:N/UI:N/VC:H/VI:H/VA:H/SC:H/SI:H/SA:H"
 V4B = "CVSS:4.0/AV:L/AC:H/AT:P/PR:L/UI:A/VC:L/VI:N/VA:L/SC:N/SI:L/SA:N/E:U/CR:L/MSI:S/MAV:N/U:Red"
+# vectors whose scores sit exactly on severity band edges (3.9 / 6.9 / 8.9)
+EDGE3 = ["CVSS:3.1/AV:N/AC:H/PR:H/UI:R/S:U/C:L/I:L/A:L", "CVSS:3.1/AV:N/AC:L/PR:H/UI:R/S:C/C:H/I:L/A:N",
+         "CVSS:3.1/AV:N/AC:L/PR:L/UI:R/S:C/C:H/I:H/A:L", "CVSS:3.0/AV:N/AC:L/PR:N/UI:N/S:U/C:H/I:H/A:L/E:P"]
+EDGE2 = ["AV:L/AC:H/Au:M/C:N/I:C/A:C/E:U/RL:OF", "AV:L/AC:M/Au:N/C:C/I:C/A:C/E:POC"]
+EDGE4 = ["CVSS:4.0/AV:N/AC:L/AT:N/PR:N/UI:N/VC:L/VI:L/VA:L/SC:L/SI:L/SA:L",
+         "CVSS:4.0/AV:N/AC:L/AT:P/PR:N/UI:N/VC:H/VI:N/VA:N/SC:H/SI:N/SA:N"]
 TEXT = "see " + V2A + " and " + V31 + ", also " + V2B + " (" + V30 + ") " + V2A
 
 _LL = {}
@@ -117,7 +123,13 @@ def _builder(fam, allm, answers):
     return probe.obs_builder(dialogue.VERSION_ARG[fam], allm, True, answers)
 
 
+def _edge_objects():
+    return [_cls("CVSS3")(v) for v in EDGE3] + [_cls("CVSS2")(v) for v in EDGE2] + [_cls("CVSS4")(v) for v in EDGE4]
+
+
 OPS = [
+    ("the whole probe", lambda: run_probe(), True),
+    ("band-edge vectors of every version", lambda: _edge_objects(), False),
     ("CVSS2(valid)", lambda: _cls("CVSS2")(V2B), False),
     ("CVSS3(3.0 body)", lambda: _cls("CVSS3")(V30), False),
     ("CVSS3(3.1 same body)", lambda: _cls("CVSS3")(V31), False),
@@ -160,6 +172,7 @@ def probe_inputs():
             # the very strings (and fields) the history operations get rejected with, and other
             # vectors carrying the same rejected fields
             V2A + "/AV:L", V31 + "/MA:Q", V4B + "/ZZ:1", V4A + "/ZZ:1", V31B + "/MA:Q", V2B + "/AV:L",
+            ] + EDGE3 + EDGE2 + EDGE4 + [EDGE3[1] + "/E:X", "CVSS:3.1/A:N/I:L/C:H/S:C/UI:R/PR:H/AC:L/AV:N", EDGE2[1] + "/RL:ND",
             "ZZ:1", "CVSS:4.0/ZZ:1", "CVSS:3.1/MA:Q", "AV:N/AC:L/E:F/CR:H", "CVSS:3.1/AV:P/S:C/MS:U/E:U",
             "CVSS:4.0/AV:P/MSI:S/E:U/CR:L", V4A + "/U:Purple", V4A + "/E:F"]
     for fam in T.FAMILIES:
@@ -288,41 +301,17 @@ def explore_histories(ctx, res, depth):
     for k in range(1, depth + 1):
         hs += [list(p) for p in itertools.product(names, repeat=k)]
     hs = ctx.rot(hs)
-    bs = 12 if depth <= 2 else 40
-    batches = [hs[i:i + bs] for i in range(0, len(hs), bs)]
-    outs = fresh_pool_map(_hist_batch, batches)
-    nrun = 0
-    bad = []
-    for batch, out in zip(batches, outs):
-        nrun += len(out)
-        if out and out[-1]:
-            bad.append((batch, len(out) - 1, out[-1]))
-    # the probe run in the parent after forking workers must still be pristine (sanity)
-    reported = 0
-    for batch, idx, why in bad[:12]:
-        h = batch[idx]
-        alone = fresh_pool_map(_hist_single, [h], 1)[0]
-        if alone:
-            hist = h
-        else:
-            hist = [n for hh in batch[:idx + 1] for n in hh]
-            alone = why
-        res.add_violation({"what": "after the history %s: %s" % (hist, alone), "kind": "history",
-                           "input": hist, "signature": {"kind": "history"}})
-        reported += 1
-    # histories in batches that were cut short were not run: run them singly
-    skipped = []
-    for batch, idx, why in bad:
-        skipped += batch[idx + 1:]
-    if skipped and len(skipped) <= 3000:
-        outs2 = fresh_pool_map(_hist_single, skipped)
-        nrun += len(skipped)
-        for h, why in zip(skipped, outs2):
-            if why:
-                res.add_violation({"what": "after the history %s: %s" % (h, why), "kind": "history",
-                                   "input": h, "signature": {"kind": "history"}})
-    return {"histories": len(hs), "histories_run": nrun, "ops": len(names), "depth": depth,
-            "probe_cases": in_fork(lambda: run_probe()[1]), "failing_batches": len(bad)}
+    # every history in its own fresh fork of the pristine parent: its verdict is a function of the
+    # history alone (the probe that follows it is part of what runs in that process)
+    outs = fresh_pool_map(_hist_single, hs)
+    failing = 0
+    for h, why in zip(hs, outs):
+        if why:
+            failing += 1
+            res.add_violation({"what": "after the history %s: %s" % (h, why), "kind": "history",
+                               "input": h, "signature": {"kind": "history"}})
+    return {"histories": len(hs), "histories_run": len(hs), "ops": len(names), "depth": depth,
+            "probe_cases": in_fork(lambda: run_probe()[1]), "failing_histories": failing}
 
 
 # =============================================================================== (2) schedules
